@@ -29,7 +29,7 @@ class Run:
         fi = [p for p, t in zip(self.ps, tys) if "FileInfo" in t and "Option<" in t]
         self.file_info_param = fi[0]["id"] if fi else None
 
-    def run(self, where=None, buffered=False, aggregate=False, found=0, stdout="ok", select=("a", "b"), order=("k",), group=(), columns=("Name",), member=False):
+    def run(self, where=None, buffered=False, aggregate=False, found=0, stdout="ok", select=("a", "b"), order=("k",), group=(), columns=("Name",), member=False, blank=False):
         """where: None (no WHERE clause) / True / False; stdout: "ok" / "pipe" / "other".
         -> (return value, events, self after)"""
         ev = []
@@ -77,8 +77,8 @@ class Run:
                 if member and not any(a is self._member_info for a in args):
                     self.info_misses.append(tag)        # evaluated without the archive member's own record
                 for mp in maps:
-                    dict.__setitem__(mp, "<%s>" % tag, "val:%s" % tag)      # the evaluator's memo, keyed by the expression's text
-                return ({"__variant": "val:%s" % tag},)
+                    dict.__setitem__(mp, "<%s>" % tag, "" if blank else "val:%s" % tag)      # the evaluator's memo, keyed by the expression's text
+                return ({"__variant": "" if blank else "val:%s" % tag},)
             if m == "to_string" and isinstance(recv, dict) and "__variant" in recv:
                 return (recv["__variant"],)
             if m == "to_string" and text_of(recv) is not None:
@@ -176,14 +176,16 @@ def pipeline(ctx):
             for aggregate in ((False, True) if buffered else (False,)):
                 for found in (0, 1, 5):
                     for out in (("ok", "pipe", "other") if not buffered else ("ok",)):
-                        for order, group, member in ((("k",), (), False), (("a", "k"), ("g",), False), ((), (), False), (("k",), (), True), ((), (), True)):
+                        for order, group, member, blank in ((("k",), (), False, False), (("a", "k"), ("g",), False, False), ((), (), False, False), (("k",), (), True, False), ((), (), True, False),
+                                                            (("k",), (), False, True), ((), (), False, True)):
                             if not order and buffered and not aggregate:
                                 continue
-                            sc = "%sWHERE %s, %s, %d rows so far, standard output %s, ORDER BY %s" % ("archive member, " if member else "",
+                            V_ = (lambda t: "") if blank else (lambda t: "val:%s" % t)
+                            sc = "%s%sWHERE %s, %s, %d rows so far, standard output %s, ORDER BY %s" % ("archive member, " if member else "", "every value of the row empty, " if blank else "",
                                 {None: "absent", True: "accepts", False: "rejects"}[where], ("buffered" + (" (aggregate)" if aggregate else "")) if buffered else "streamed",
                                 found, {"ok": "open", "pipe": "closed", "other": "failing"}[out], list(order))
                             try:
-                                got, ev, sv = run.run(where=where, buffered=buffered, aggregate=aggregate, found=found, stdout=out, order=order, group=group, member=member)
+                                got, ev, sv = run.run(where=where, buffered=buffered, aggregate=aggregate, found=found, stdout=out, order=order, group=group, member=member, blank=blank)
                             except interp.Undecided as e:
                                 ctx.obligation(False)
                                 bad("unreadable", "cannot evaluate check_file (%s): %s" % (sc, e))
@@ -211,11 +213,11 @@ def pipeline(ctx):
                             if not ok:
                                 bad("count", "an accepted entry must count once: %s: found goes from %d to %s" % (sc, found, sv["found"]))
                             rows = [e for e in ev if e[0] == "write_row"]
-                            want_items = [("<a>", "val:a"), ("<b>", "val:b")]
+                            want_items = [("<a>", V_("a")), ("<b>", V_("b"))]
                             ok = len(rows) == 1 and list(rows[0][2]) == want_items
                             ctx.obligation(ok)
                             if not ok:
-                                bad("row-items", "the row must be rendered once from the select list in order, each cell the value of its expression; %s: %s" % (sc, [list(r[2]) for r in rows]))
+                                bad("row-items", "the row must be rendered once from the select list in order, each cell the value of its expression (an accepted entry is a row, whatever its values); %s: %s" % (sc, [list(r[2]) for r in rows]))
                                 continue
                             rowbuf = rows[0][1]
                             rowtext = "<text of buffer %d>" % rowbuf["__buf"] if isinstance(rowbuf, dict) and "__buf" in rowbuf else None
@@ -231,7 +233,7 @@ def pipeline(ctx):
                                 key, text = ins[0][1], ins[0][2]
                                 crit = key.get("__criteria") if isinstance(key, dict) else None
                                 ok = crit is not None and len(crit) == 3 and [x.get("__tag") for x in crit[0]] == list(order) and \
-                                    list(crit[1]) == ["val:%s" % t for t in order] and list(crit[2]) == [True] * len(order) and text == rowtext
+                                    list(crit[1]) == [V_(t) for t in order] and list(crit[2]) == [True] * len(order) and text == rowtext
                                 ctx.obligation(ok)
                                 if not ok:
                                     bad("buffer-key", "the buffer key must be Criteria::new(ordering fields, one value per ordering field in order, directions) and the "
